@@ -86,6 +86,10 @@ type Map struct {
 
 type rtype struct{ t types.Type }
 
+// nativeObj wraps a Go object of the engine's own run time that interpreted code only passes around
+// (e.g. a compiled regular expression).
+type nativeObj struct{ v interface{} }
+
 func mkBool(b bool) Sc {
 	if b {
 		return Sc{C: 1}
